@@ -137,6 +137,34 @@ fn scenario_scripts(kind: usize, g: &mut Gen, snap: &Value, conns: &[String]) ->
                 m.insert(c.clone(), vec![cmd("OPER", vec![vec![s("god")], vec![s("godpass")]]), cmd("ISON", vec![vec![n.clone()]])]);
             }
         }
+        // sessions end (QUIT) while others talk to the shared channel, rename and part, and an operator login
+        // (password hashing under the state write lock) makes everybody queue up: the leaving user is still in
+        // the tables when the others' fan-outs run
+        11 => {
+            if authed.len() >= 3 {
+                let nq = if authed.len() >= 5 && g.rng.gen_bool(0.5) { 2 } else { 1 };
+                let wrong = if g.rng.gen_bool(0.7) { "wrongpass" } else { "godpass" };
+                m.insert(authed[0].clone(), vec![cmd("OPER", vec![vec![s("god")], vec![s(wrong)]]), cmd("OPER", vec![vec![s("god")], vec![s("wrongpass")]]),
+                                                 cmd("PRIVMSG", vec![vec![s("#one")], vec![format!("{}-op", authed[0])]])]);
+                for (i, c) in authed.iter().enumerate().skip(1) {
+                    let sc = if i <= nq {
+                        if g.rng.gen_bool(0.5) {
+                            vec![cmd("PRIVMSG", vec![vec![s("#one")], vec![format!("{}-bye", c)]]), cmd("QUIT", vec![])]
+                        } else {
+                            vec![cmd("QUIT", vec![])]
+                        }
+                    } else {
+                        match (i + g.rng.gen_range(0..3)) % 3 {
+                            0 => vec![cmd("PRIVMSG", vec![vec![s("#one")], vec![format!("{}-1", c)]]), cmd("NOTICE", vec![vec![s("#one")], vec![format!("{}-2", c)]]),
+                                      cmd("PRIVMSG", vec![vec![s("#one")], vec![format!("{}-3", c)]])],
+                            1 => vec![cmd("NICK", vec![vec![g.nick_for(i)]]), cmd("PRIVMSG", vec![vec![s("#one")], vec![format!("{}-n", c)]])],
+                            _ => vec![cmd("PRIVMSG", vec![vec![s("#one")], vec![format!("{}-p", c)]]), cmd("PART", vec![vec![s("#one")]]), cmd("JOIN", vec![vec![s("#one")]])],
+                        }
+                    };
+                    m.insert(c.clone(), sc);
+                }
+            }
+        }
         // random scripts
         _ => {
             for c in conns {
@@ -182,7 +210,7 @@ impl Gen {
     }
 }
 
-async fn run_rounds(id: &str, cfg: &Value, seed: u64, rounds: usize, nconn: usize, out: &mut Vec<Value>) {
+async fn run_rounds(id: &str, cfg: &Value, seed: u64, rounds: usize, nconn: usize, kinds: &[usize], out: &mut Vec<Value>) {
     let cfgn = normalize_cfg(cfg);
     let mut sess = Session::start(&cfgn).await;
     take_panics();
@@ -210,17 +238,26 @@ async fn run_rounds(id: &str, cfg: &Value, seed: u64, rounds: usize, nconn: usiz
     verif::RACE_ARMED.store(true, Ordering::SeqCst);
     for r in 0..rounds {
         snap = sess.snapshot().await;
-        if !snap["dead"].as_array().map(|a| a.is_empty()).unwrap_or(true) {
+        if !snap["dead"].as_array().map(|a| a.is_empty()).unwrap_or(true) || snap["blocked"].as_bool().unwrap_or(false) {
             break;
         }
         // re-open connections that ended in earlier rounds
-        for c in &conns {
+        for (i, c) in conns.iter().enumerate() {
             if snap["conns"][c.as_str()].is_null() {
                 sess.step(c, &cmd("!open", vec![])).await;
+                // most of them register again (under a new name) and come back to the shared channel
+                if g.rng.gen_bool(0.6) {
+                    if profile == "pw" {
+                        sess.step(c, &cmd("PASS", vec![vec![s("srvpass")]])).await;
+                    }
+                    sess.step(c, &cmd("NICK", vec![vec![format!("back{}r{}", i, r)]])).await;
+                    sess.step(c, &cmd("USER", vec![vec![format!("u{}", i + 1)], vec![s("R")]])).await;
+                    sess.step(c, &cmd("JOIN", vec![vec![s("#one")]])).await;
+                }
             }
         }
         snap = sess.snapshot().await;
-        let kind = (seed as usize + r) % 11;
+        let kind = if kinds.is_empty() { (seed as usize + r) % 12 } else { kinds[(seed as usize + r) % kinds.len()] };
         if kind == 8 || kind == 9 {
             // make room for fresh registrations: three connections start over
             for c in conns.iter().skip(2) {
@@ -286,6 +323,9 @@ async fn run_rounds(id: &str, cfg: &Value, seed: u64, rounds: usize, nconn: usiz
             }
         };
         let post = sess.snapshot().await;
+        if post["blocked"].as_bool().unwrap_or(false) {
+            issue.push("watchdog: the server state stayed locked for 8 s (a handler is holding it)".to_string());
+        }
         sess.retire_ended();
         // per receiver: the direct stream (non-relay lines) and, per sending connection, the relays
         let mut direct: Map<String, Value> = Map::new();
@@ -332,18 +372,19 @@ async fn run_rounds(id: &str, cfg: &Value, seed: u64, rounds: usize, nconn: usiz
         }
     }
     verif::RACE_ARMED.store(false, Ordering::SeqCst);
-    sess.stop().await;
+    let _ = tokio::time::timeout(Duration::from_secs(5), sess.stop()).await;
 }
 
 pub fn main(args: &[String]) -> i32 {
     if args.is_empty() {
-        eprintln!("conc <out.ndjson> --seed S --rounds N [--workers W] [--episodes E]");
+        eprintln!("conc <out.ndjson> --seed S --rounds N [--workers W] [--episodes E] [--kinds 3,11]");
         return 2;
     }
     let seed: u64 = arg_val(args, "--seed").and_then(|s| s.parse().ok()).unwrap_or(1);
     let rounds: usize = arg_val(args, "--rounds").and_then(|s| s.parse().ok()).unwrap_or(16);
     let episodes: usize = arg_val(args, "--episodes").and_then(|s| s.parse().ok()).unwrap_or(1);
     let workers: usize = arg_val(args, "--workers").and_then(|s| s.parse().ok()).unwrap_or(4);
+    let kinds: Vec<usize> = arg_val(args, "--kinds").map(|s| s.split(',').filter_map(|x| x.parse().ok()).collect()).unwrap_or_default();
     let base: u16 = arg_val(args, "--port-base").and_then(|s| s.parse().ok()).unwrap_or(30000);
     set_port_base(base);
     let mut w = BufWriter::new(std::fs::File::create(&args[0]).expect("create output"));
@@ -358,7 +399,7 @@ pub fn main(args: &[String]) -> i32 {
         }
         let mut recs = vec![];
         let id = format!("conc-{}-{}-{}-w{}", seed, e, profile, workers);
-        rt.block_on(run_rounds(&id, &cfg, seed.wrapping_mul(7919).wrapping_add(e as u64), rounds, 5, &mut recs));
+        rt.block_on(run_rounds(&id, &cfg, seed.wrapping_mul(7919).wrapping_add(e as u64), rounds, 5, &kinds, &mut recs));
         for r in recs {
             writeln!(w, "{}", r).unwrap();
         }
